@@ -6,6 +6,7 @@
 -/
 import BitstringModel.Model.C12
 import BitstringModel.Proofs.C12Ops
+import BitstringModel.Proofs.C12Ops2
 
 namespace BM.C12
 open BM
